@@ -260,30 +260,55 @@ def opt_selected(ctx, body, ob):
         return False, "RData::parse not found"
     empties = mu.aggregates(rp, "rdata::RData", "Empty")
     eqs = mu.calls(rp, r"TYPE as std::cmp::PartialEq>::eq$")
-    if len(empties) != 1 or len(eqs) != 1:
+    if len(empties) == 1 and len(eqs) == 0:
+        # `if let TYPE::OPT = ty` / `match ty { TYPE::OPT => .. }`: a switch on the discriminant of a TYPE value
+        ebi = empties[0][0]
+        rdefs = mu.defs_of(rp)
+        tadt = prog.adts.get("simple_dns::dns::rdata::TYPE")
+        oi = [i for i, v in enumerate(tadt["variants"]) if v["name"] == "OPT"][0] if tadt else None
+        dom = mu.dominators(rp)
+        for sbi, sbl in enumerate(rp.blocks):
+            swt = sbl["term"]
+            if sbl["cleanup"] or swt["t"] != "switch":
+                continue
+            d = mu.single_def(rdefs, mu.op_local(swt["discr"]) if mu.op_local(swt["discr"]) is not None else -1)
+            if d is None or d[1] == "term" or d[2].get("k") != "discr" or not rp.ty(d[2]["pl"]["t"])["s"].endswith("rdata::TYPE"):
+                continue
+            opt_t = [tg for v, tg in swt["arms"] if int(v) == oi]
+            if not opt_t or swt["otherwise"] == opt_t[0]:
+                continue
+            if sbi in dom[ebi] and ebi not in mu.reachable_from(rp, opt_t[0], avoid={sbi}):
+                break
+        else:
+            return False, "RData::parse: no test of the type against TYPE::OPT keeps the Empty construction out of the OPT case"
+        eqs = None
+    elif len(empties) != 1 or len(eqs) != 1:
         return False, "RData::parse: expected one Empty construction and one TYPE comparison"
-    ebi = empties[0][0]
-    eq_bi, eq_t = eqs[0]
-    pv = None
-    rdefs = mu.defs_of(rp)
-    for a in eq_t["args"]:
-        l = mu.op_local(a)
-        for st in mu.trace_back(rp, rdefs, l):
-            if st[2] != "term" and st[3].get("k") == "use":
-                pv = pv or prog.promoted_value(st[3]["op"])
-    if pv is None or pv[1] != "OPT":
-        return False, "RData::parse does not compare the type with TYPE::OPT"
-    swb = eq_t["target"]
-    swt = rp.blocks[swb]["term"]
-    if swt["t"] != "switch":
-        return False, "comparison result is not branched on"
-    false_t = [t for v, t in swt["arms"] if int(v) == 0]
-    true_t = swt["otherwise"]
-    if not false_t:
-        return False, "unexpected branch shape"
-    dom = mu.dominators(rp)
-    if swb not in dom[ebi] or ebi in mu.reachable_from(rp, true_t):
-        return False, "Empty can be constructed when the type is OPT"
+    if eqs is None:
+        pass
+    else:
+      ebi = empties[0][0]
+      eq_bi, eq_t = eqs[0]
+      pv = None
+      rdefs = mu.defs_of(rp)
+      for a in eq_t["args"]:
+          l = mu.op_local(a)
+          for st in mu.trace_back(rp, rdefs, l):
+              if st[2] != "term" and st[3].get("k") == "use":
+                  pv = pv or prog.promoted_value(st[3]["op"])
+      if pv is None or pv[1] != "OPT":
+          return False, "RData::parse does not compare the type with TYPE::OPT"
+      swb = eq_t["target"]
+      swt = rp.blocks[swb]["term"]
+      if swt["t"] != "switch":
+          return False, "comparison result is not branched on"
+      false_t = [t for v, t in swt["arms"] if int(v) == 0]
+      true_t = swt["otherwise"]
+      if not false_t:
+          return False, "unexpected branch shape"
+      dom = mu.dominators(rp)
+      if swb not in dom[ebi] or ebi in mu.reachable_from(rp, true_t):
+          return False, "Empty can be constructed when the type is OPT"
     # no other constructor of RData::Empty under Packet::parse except field-for-field copies
     reach = cg.reachable([parent.id])
     others = []
